@@ -18,6 +18,10 @@ BRIDGES = {   # kind -> (class, generated module, bridge module)
     "mru": ("mru_cache", "GenMru", "MruBridge"),
     "fifo": ("fifo_cache", "GenFifo", "FifoBridge"),
     "rr": ("rr_cache", "GenRr", "RrBridge"),
+    "lfu": ("lfu_cache", "GenLfu", "LfuBridge"),
+    "tlru": ("tlru_cache", "GenTlru", "TlruBridge"),
+    "ut_map": ("ut_map", "GenUtMap", "UtMapBridge"),
+    "ut_set": ("ut_set", "GenUtSet", "UtSetBridge"),
 }
 FORBIDDEN = re.compile(r"\b(Admitted|admit|Axiom|Axioms|Parameter|Parameters|Conjecture)\b|Unset\s+Guard|bypass_check|Admit Obligations")
 
